@@ -31,6 +31,10 @@ CHECKS = {
    "Same machine as C03; TLC checks feasibility 0 <= utility GCC <= pocket-free GCC at every breakpoint of either curve (sufficient for piecewise-linear curves; NP's extra breakpoints are concave) and, for isothermal ladders with distinct levels, equality with the closed-form lowest-grade-first optimum, which TLC itself proves maximal by brute force in the tiny config. Replay judges the unrounded H_net_ut/H_net_np columns (hook snapshot) and the utility GCC rebuilt from the reported duties. One known finding (KF-C04-glide) is carved out by an input-class predicate that TLC evaluates per case.",
    "Utilities with zero contribution; isothermal = 0.1 K glide placed so that no lattice breakpoint falls inside it.",
    "TLA+ spec + TLC exhaustive model check; TLC-exported cases replayed into the implementation"),
+ "C19": ("model_checking", "7/C19",
+   "spec/StreamObject.tla (one action per public setter, _update_attributes transcribed branch by branch incl. the rule that rewrites the target of an isothermal stream) is model-checked over every constructor argument combination x every sequence of 3 (quick) / 4 setter calls, and every behaviour is replayed on a real Stream with the four stated relations evaluated after each call; spec/StreamColl.tla (insertion-ordered dictionary with string keys, clash renaming, stable sorted view, member setters the collection is not told about) is model-checked exhaustively and TLC-simulated behaviours are replayed on real StreamCollection objects with membership/len/iteration-order/concatenation checked after every call.",
+   "Film coefficient > 0; member names a, a, a_1, a_2; one known finding (KF-C19-dead) carved out by the predicate StreamObject!Dead, whose non-emptiness TLC demonstrates in the thorough tier.",
+   "TLA+ spec + TLC exhaustive model check; TLC-generated behaviours replayed on the real objects"),
 }
 NOT_YET = {}
 
